@@ -451,6 +451,21 @@ func readerDiscardRules(c *Ctx, prop string) {
 		if r.fin.config != readerConfigWant(true) {
 			problems = append(problems, "Discard changes the reader's configuration: "+r.fin.config+" "+desc)
 		}
+		// the fragmentation state is NextFrame's alone: Discard (and the reset it ends with) leaves it
+		// as the last header set it - after a failure in the middle of a message the reader still
+		// knows it is inside one, so the end of the stream is not taken for a clean one
+		wantState := "1"
+		if r.frag0 {
+			wantState = "9"
+		}
+		for _, k := range r.nf {
+			if k == 1 {
+				wantState = "1"
+			}
+		}
+		if r.fin.state != wantState {
+			problems = append(problems, fmt.Sprintf("Discard leaves State=%s, the headers seen so far make it %s: the reader forgets that it is inside a fragmented message %s", r.fin.state, wantState, desc))
+		}
 	}
 	c.verdict(rule, rule+"/Discard", c.P.FuncPos(f), uniq(problems), fmt.Sprintf("%d paths", len(out)))
 }
